@@ -92,6 +92,8 @@ def draw_scenario(cs, cfg):
     sc["oshape"] = list(oshapes[cs.draw(len(oshapes), "oshape")])
     sc["skind"] = ["tensor_grad", "tensor_nograd", "float"][cs.weighted([4, 1, 2], "skind")]
     sc["cgrad"] = not cs.bool("c_nograd", 1, 4)
+    sc["c_nonleaf"] = sc["cgrad"] and cs.bool("c_nonleaf", 1, 3)      # a differentiable argument that is an intermediate result
+    sc["construct_nograd"] = cs.bool("construct_nograd", 1, 4)          # jac()/hess() called with grad recording off
     sc["rgW"] = not cs.bool("W_nograd", 1, 6)
     sc["rgb"] = not cs.bool("b_nograd", 1, 6)
     # which argument the derivative is taken with respect to
@@ -156,6 +158,9 @@ def build_env(sc):
     g.manual_seed(777 + sc["valseed"])
     x = (0.4 * torch.randn(tuple(sc["xshape"]), generator=g, dtype=AC.DT)).requires_grad_()
     c = (0.5 * torch.randn(n, generator=g, dtype=AC.DT) + 1.0).requires_grad_(sc["cgrad"])
+    if sc.get("c_nonleaf"):
+        env.c_leaf = c
+        c = c * 1.0
     if sc["skind"] == "float":
         s = 0.8
     else:
@@ -307,22 +312,34 @@ def execute(sc, plan, reference=None):
                         SIM.count("reach.invalid_idx_rejected")
             SIM.count("fault.invalid_op", 2 * len(bad[:2]))
         form = sc["idxform"]
+        import contextlib as _cl
         try:
-            if form == "int":
-                op = maker(env.fcn, params=env.params, idxs=idx)
-            elif form == "none":
-                lst = maker(env.fcn, params=env.params, idxs=None)
-                want = [i for i, p in enumerate(env.params) if isinstance(p, torch.Tensor) and p.requires_grad]
-                if len(lst) != len(want):
-                    V("idxs_none_count", "construct", "idxs=None returned %d operators, %d differentiable arguments" %
-                      (len(lst), len(want)))
-                op = lst[want.index(idx)]
-            else:
-                other = [i for i, p in enumerate(env.params) if isinstance(p, torch.Tensor) and p.requires_grad and i != idx]
-                seq = ([other[0]] if other else []) + [idx]
-                lst = maker(env.fcn, params=env.params, idxs=seq)
-                op = lst[-1]
-        except InjectedFault:
+          with (torch.no_grad() if sc.get("construct_nograd") else _cl.nullcontext()):
+              if form == "int":
+                  op = maker(env.fcn, params=env.params, idxs=idx)
+              elif form == "none":
+                  lst = maker(env.fcn, params=env.params, idxs=None)
+                  want = [i for i, p in enumerate(env.params) if isinstance(p, torch.Tensor) and p.requires_grad]
+                  if len(lst) != len(want):
+                      V("idxs_none_count", "construct", "idxs=None returned %d operators, %d differentiable arguments" %
+                        (len(lst), len(want)))
+                  op = lst[want.index(idx)]
+              else:
+                  other = [i for i, p in enumerate(env.params) if isinstance(p, torch.Tensor) and p.requires_grad and i != idx]
+                  seq = ([other[0]] if other else []) + [idx]
+                  lst = maker(env.fcn, params=env.params, idxs=seq)
+                  op = lst[-1]
+        except Exception as e:
+            if not isinstance(e, InjectedFault):
+                # jac()/hess() rejected a request the statement says is valid (or returned a list that does not match)
+                V("construct_raises", "construct", "%s(idxs form %s, grad recording %s) raised %s: %s" %
+                  (sc["which"], form, "off" if sc.get("construct_nograd") else "on", type(e).__name__, str(e)[:300]))
+                for v in viol:
+                    v.setdefault("op", -1)
+                info["N"] = SIM.seq
+                info["digest"] = SIM.digest()
+                info["counters"] = dict(SIM.counters)
+                return {"values": [], "N": SIM.seq, "violations": viol, "info": info}
             # the fault landed in the construction-time evaluation: nothing was substituted yet
             info["fired"] = {"k": SIM.seq, "op": -1, "opname": "construct"}
             if init_snap is not None:
